@@ -12,6 +12,15 @@ use std::sync::Mutex;
 use std::time::{Duration, Instant};
 
 pub const NCOUNT: usize = 64;
+
+static SMALL: std::sync::atomic::AtomicBool = std::sync::atomic::AtomicBool::new(false);
+/// `--small`: generators keep workloads tiny (used by the Miri tier, ~1000x slower than native)
+pub fn small() -> bool {
+    SMALL.load(Ordering::Relaxed)
+}
+pub fn set_small(v: bool) {
+    SMALL.store(v, Ordering::Relaxed)
+}
 pub const BLOCK: u64 = 256;
 /// at most this many distinct signatures are kept (conservative undercount beyond)
 pub const SIG_CAP: usize = 3_000_000;
@@ -459,6 +468,9 @@ pub fn run<S: Scenario>(cfg: &RunCfg) -> i32 {
                         let mut rng = Rng::new(run_seed(cfg.seed, S::TAG, run));
                         let trace = S::gen(&mut rng, cfg.tier, run);
                         crate::supervisor::set_run(run);
+                        if cfg!(miri) {
+                            eprintln!("miri-run {run}");
+                        }
                         let out = exec_one::<S>(&trace, false);
                         crate::supervisor::set_run(u64::MAX);
                         bs.runs += 1;
